@@ -601,12 +601,20 @@ pub fn check_main(a: CheckArgs) -> i32 {
                     println!("VIOLATION property=C14 replay={}", path.display());
                     confirmed_violations += 1;
                     exit = 1;
+                } else if crash_reports <= 3 {
+                    // a crash or hang of the library is C14's clause; in another property's check it
+                    // is a cross-finding (with its replay file), not that check's verdict
+                    println!("  cross-finding C14:process-crash replay={}", path.display());
                 }
             }
             None => {
-                println!("HARNESS ERROR: a worker died and left no trace of the case it was running");
-                if exit == 0 {
-                    exit = 2;
+                if a.check == "C14" {
+                    println!("HARNESS ERROR: a worker died and left no trace of the case it was running");
+                    if exit == 0 {
+                        exit = 2;
+                    }
+                } else if crash_reports <= 3 {
+                    println!("  cross-finding C14:process-crash (no trace of the running case was left)");
                 }
             }
         }
